@@ -1,9 +1,9 @@
 (* C18/Model.v — executable model of src/schedule.py (class Schedule):
    addEvent / removeEvent / rescheduleEvent / makePeriodicWrapper /
    addPeriodicEvent / run, mirrored statement by statement, with the exception
-   each primitive raises and the defects of the pinned code (rescheduleEvent
-   re-adds without args/kwargs; `return` inside `finally` swallows the
-   exception of a periodic function).
+   each primitive raises and the quirks of the code (`return` inside `finally`
+   swallows the exception of a periodic function).  rescheduleEvent is the
+   repaired one (fix of C18.F17: it passes the entry's args/kwargs on).
 
    Event functions are terms of a small action language [act] so that events
    which add / remove / reschedule other events, raise, or take time are
@@ -17,7 +17,7 @@
    minimal entry.  Theorems hold for every oracle stream, i.e. for every
    tie-breaking among equal times.
 
-   Fields nsched / e_sid / e_gargs / removed / pops / calls / dropped are ghost:
+   Fields nsched / e_sid / e_gargs / removed / pops / calls are ghost:
    they record history, never influence control flow (except as outputs).
    No proofs in this file. *)
 From Coq Require Import List NArith ZArith Bool.
@@ -78,20 +78,18 @@ Record state := St {
   removed : list N;                (* ghost: sids dropped by removeEvent *)
   oracle : list name;              (* input: names returned by the real heappop *)
   obad : bool;                     (* the oracle named a non-minimal / absent entry *)
-  dropped : bool;                  (* ghost: rescheduleEvent discarded non-empty args *)
   fuelout : bool                   (* run() loop cut by the fuel bound *)
 }.
 
-Definition init (o : list name) : state := St [] [] 0%N 0 0%N 0%N [] [] [] o false false false.
+Definition init (o : list name) : state := St [] [] 0%N 0 0%N 0%N [] [] [] o false false.
 
-Definition set_heap h s := St h (events s) (counter s) (now s) (nreg s) (nsched s) (calls s) (pops s) (removed s) (oracle s) (obad s) (dropped s) (fuelout s).
-Definition set_events ev s := St (heap s) ev (counter s) (now s) (nreg s) (nsched s) (calls s) (pops s) (removed s) (oracle s) (obad s) (dropped s) (fuelout s).
-Definition bump_counter s := St (heap s) (events s) (counter s + 1)%N (now s) (nreg s) (nsched s) (calls s) (pops s) (removed s) (oracle s) (obad s) (dropped s) (fuelout s).
-Definition tick d s := St (heap s) (events s) (counter s) (now s + Z.of_N d) (nreg s) (nsched s) (calls s) (pops s) (removed s) (oracle s) (obad s) (dropped s) (fuelout s).
-Definition bump_reg s := St (heap s) (events s) (counter s) (now s) (nreg s + 1)%N (nsched s) (calls s) (pops s) (removed s) (oracle s) (obad s) (dropped s) (fuelout s).
-Definition log_call c s := St (heap s) (events s) (counter s) (now s) (nreg s) (nsched s) (c :: calls s) (pops s) (removed s) (oracle s) (obad s) (dropped s) (fuelout s).
-Definition set_dropped s := St (heap s) (events s) (counter s) (now s) (nreg s) (nsched s) (calls s) (pops s) (removed s) (oracle s) (obad s) true (fuelout s).
-Definition set_fuelout s := St (heap s) (events s) (counter s) (now s) (nreg s) (nsched s) (calls s) (pops s) (removed s) (oracle s) (obad s) (dropped s) true.
+Definition set_heap h s := St h (events s) (counter s) (now s) (nreg s) (nsched s) (calls s) (pops s) (removed s) (oracle s) (obad s) (fuelout s).
+Definition set_events ev s := St (heap s) ev (counter s) (now s) (nreg s) (nsched s) (calls s) (pops s) (removed s) (oracle s) (obad s) (fuelout s).
+Definition bump_counter s := St (heap s) (events s) (counter s + 1)%N (now s) (nreg s) (nsched s) (calls s) (pops s) (removed s) (oracle s) (obad s) (fuelout s).
+Definition tick d s := St (heap s) (events s) (counter s) (now s + Z.of_N d) (nreg s) (nsched s) (calls s) (pops s) (removed s) (oracle s) (obad s) (fuelout s).
+Definition bump_reg s := St (heap s) (events s) (counter s) (now s) (nreg s + 1)%N (nsched s) (calls s) (pops s) (removed s) (oracle s) (obad s) (fuelout s).
+Definition log_call c s := St (heap s) (events s) (counter s) (now s) (nreg s) (nsched s) (c :: calls s) (pops s) (removed s) (oracle s) (obad s) (fuelout s).
+Definition set_fuelout s := St (heap s) (events s) (counter s) (now s) (nreg s) (nsched s) (calls s) (pops s) (removed s) (oracle s) (obad s) true.
 
 (* ---- dict primitives on self.events ---- *)
 Fixpoint has_key (n : name) (ev : list (name * fn)) : bool :=
@@ -108,7 +106,7 @@ Fixpoint take_key (n : name) (ev : list (name * fn)) : option (fn * list (name *
 (* ---- addEvent(f, t, name, args, kwargs) ; [g] is the ghost registered-args ---- *)
 Definition push (f : fn) (t : Z) (n : name) (av g : argv) (s : state) : state :=
   St (Ent t n av (nsched s) g :: heap s) ((n, f) :: events s) (counter s) (now s) (nreg s)
-    (nsched s + 1)%N (calls s) (pops s) (removed s) (oracle s) (obad s) (dropped s) (fuelout s).
+    (nsched s + 1)%N (calls s) (pops s) (removed s) (oracle s) (obad s) (fuelout s).
 
 Definition addEvent (f : fn) (t : Z) (nm : option name) (av g : argv) (s : state) : state * res name :=
   let '(n, s1) := match nm with
@@ -118,29 +116,38 @@ Definition addEvent (f : fn) (t : Z) (nm : option name) (av g : argv) (s : state
   if has_key n (events s1) then (s1, Raise AssertionError)        (* assert name not in self.events *)
   else (push f t n av g s1, Ok n).
 
-(* ---- removeEvent(name): returns f (and, ghost, the registered args of the dropped entry) ---- *)
+(* ---- removeEvent(name): returns f ---- *)
 Definition named (n : name) (e : entry) : bool := name_eqb (e_name e) n.
 Definition drop (n : name) (ev' : list (name * fn)) (s : state) : state :=
   St (filter (fun e => negb (named n e)) (heap s)) ev' (counter s) (now s) (nreg s) (nsched s)
     (calls s) (pops s) (map e_sid (filter (named n) (heap s)) ++ removed s)
-    (oracle s) (obad s) (dropped s) (fuelout s).
+    (oracle s) (obad s) (fuelout s).
 
-Definition removeEvent (n : name) (s : state) : state * res (fn * (argv * argv)) :=
+Definition removeEvent (n : name) (s : state) : state * res fn :=
   match take_key n (events s) with
   | None => (s, Raise KeyError)                                   (* self.events.pop(name) *)
-  | Some (f, ev') =>
-      let g := match filter (named n) (heap s) with e :: _ => (e_args e, e_gargs e) | [] => (noargs, noargs) end in
-      (drop n ev' s, Ok (f, g))                                   (* listcomp + heapify *)
+  | Some (f, ev') => (drop n ev' s, Ok f)                         (* listcomp + heapify *)
   end.
 
-(* ---- rescheduleEvent(name, t): addEvent(f, t, name=name)  -- args/kwargs NOT passed ---- *)
+(* ---- rescheduleEvent(name, t):
+        args = []; kwargs = {}
+        for x in self.schedule: if x[1] == name: (args, kwargs) = (x[2], x[3]); break
+        f = self.removeEvent(name)
+        self.addEvent(f, t, name=name, args=args, kwargs=kwargs)
+   (the heap is a bag here: "first entry of that name" is the only one in every reachable state, Lemmas.INV;
+    the second component is the ghost registered-args of that entry) ---- *)
+Definition lookup_args (n : name) (h : list entry) : argv * argv :=
+  match filter (named n) h with
+  | e :: _ => (e_args e, e_gargs e)
+  | [] => (noargs, noargs)
+  end.
+
 Definition reschedule (n : name) (t : Z) (s : state) : state * res unit :=
+  let '(av, g) := lookup_args n (heap s) in
   match removeEvent n s with
   | (s1, Raise e) => (s1, Raise e)
-  | (s1, Ok (f, (old, g))) =>
-      let av := if gen.T18.RESCHED_PASSES_ARGS then old else noargs in
-      let s2 := if argv_empty g || gen.T18.RESCHED_PASSES_ARGS then s1 else set_dropped s1 in
-      match addEvent f t (Some n) av g s2 with
+  | (s1, Ok f) =>
+      match addEvent f t (Some n) av g s1 with
       | (s3, Ok _) => (s3, Ok tt)
       | (s3, Raise e) => (s3, Raise e)
       end
@@ -244,7 +251,7 @@ Definition due (t clock : Z) : bool := if gen.T18.RUN_CMP_STRICT then t <? clock
 
 Definition popped (e : entry) (r : list entry) (o : list name) (bad : bool) (ev' : list (name * fn)) (s : state) : state :=
   St r ev' (counter s) (now s) (nreg s) (nsched s) (calls s) (PopRec (now s) e (heap s) :: pops s) (removed s)
-    o (obad s || bad) (dropped s) (fuelout s).
+    o (obad s || bad) (fuelout s).
 
 (* ---- run(): while self.schedule and self.schedule[0][0] < time.time(): pop; call under try/except ---- *)
 Fixpoint run_loop (fuel : nat) (s : state) : state * res unit :=
@@ -332,11 +339,11 @@ Fixpoint run_snaps (fuel : nat) (ops : list op) (s : state) : state * list value
       (s2, vSnap r s1 :: l)
   end.
 
-(* run: (fuel oracle ops) -> (snapshots calls pops (obad fuelout dropped)) *)
+(* run: (fuel oracle ops) -> (snapshots calls pops (obad fuelout)) *)
 Definition run (v : value) : value :=
   let fuel := N.to_nat (gN (nth_v 0 v)) in
   let o := map gName (gL (nth_v 1 v)) in
   let ops := map gOp (gL (nth_v 2 v)) in
   let '(s, snaps) := run_snaps fuel ops (init o) in
   L [L snaps; L (map vCall (rev (calls s))); L (map vPop (rev (pops s)));
-     L [vB (obad s); vB (fuelout s); vB (dropped s)]; vN (N.of_nat (length (oracle s)))].
+     L [vB (obad s); vB (fuelout s)]; vN (N.of_nat (length (oracle s)))].
